@@ -97,6 +97,7 @@ func Load(opt LoadOptions) (*Program, error) {
 	p := &Program{RepoDir: repo, Fset: cfg.Fset, Whole: opt.Whole,
 		SSAPkg: map[string]*ssa.Package{}, funcByKey: map[string]*ssa.Function{},
 		origins: map[*ssa.Function]*Origins{}, expanding: map[*ssa.Function]bool{}}
+	theProgram = p
 	var errs []string
 	for _, pkg := range initial {
 		for _, e := range pkg.Errors {
